@@ -319,9 +319,20 @@ def run(tier: str) -> int:
     out = core.validate_trace('Agree', [{'tid': r['tid'], 'a': r['a'], 'b': r['b']} for r in pairs], cfg='Agree')
     rep.add_tlc(out.generated, out.distinct)
     by = {r['tid']: r for r in pairs}
+    def zero_sign_only(a, b):
+        if isinstance(a, dict) and isinstance(b, dict):
+            if a.get('k') == 'fin' and b.get('k') == 'fin' and a.get('n') == 0 and b.get('n') == 0:
+                return True
+            return a.keys() == b.keys() and all(zero_sign_only(a[k], b[k]) for k in a)
+        if isinstance(a, list) and isinstance(b, list):
+            return len(a) == len(b) and all(zero_sign_only(x, y) for x, y in zip(a, b))
+        return a == b
     for mm in out.mismatches:
         r = by[mm[0]]
-        rep.mismatch({'clause': mm[1]}, {k: r.get(k) for k in ('src', 'opt', 'args', 'a', 'b', 'detail')} | {'clause': mm[1]})
+        key = {'clause': mm[1]}
+        if mm[1] == 'compiled-result-differs' and 'RTN' in r['src'] and zero_sign_only(r['a'], r['b']):
+            key['shape'] = 'sign-of-an-exactly-cancelled-sum-under-RTN'
+        rep.mismatch(key, {k: r.get(k) for k in ('src', 'opt', 'args', 'a', 'b', 'detail')} | {'clause': mm[1]})
     send = [{k: v for k, v in p.items() if k not in ('opt',)} for p in mprogs]
     mm, skips, gen, dis = progrun.run_machine(send)
     rep.add_tlc(gen, dis)
